@@ -26,6 +26,8 @@ type c07Case struct {
 	BLay    string `json:"b_lay,omitempty"`
 	Base    string `json:"base,omitempty"` // absent | none | a | b | self
 	Twin    string `json:"twin,omitempty"` // absent | none | a | b  (pages/a.vuego)
+	// BaseTwin: a file called base.vuego stands next to the page (it is a layout only for a page that names "base")
+	BaseTwin bool `json:"base_twin,omitempty"`
 	// chain
 	Len   int  `json:"len,omitempty"`
 	Cycle bool `json:"cycle,omitempty"`
@@ -115,6 +117,10 @@ func (c *c07Case) Run(ctx *core.Ctx) {
 			files["pages/a.vuego"] = c07Layout("twin", c.Twin, "")
 		}
 		_ = name
+		baseTwin := path.Join(path.Dir(page), "base.vuego")
+		if c.BaseTwin {
+			files[baseTwin] = c07Layout("btwin", "none", "")
+		}
 		// reference resolver
 		exists := func(p string) bool { _, ok := files[p]; return ok }
 		layoutOf := func(file string) string {
@@ -125,7 +131,7 @@ func (c *c07Case) Run(ctx *core.Ctx) {
 			}
 			return ""
 		}
-		idOf := map[string]string{page: "page", "layouts/a.vuego": "la", "layouts/b.vuego": "lb", "layouts/base.vuego": "lbase", "pages/a.vuego": "twin"}
+		idOf := map[string]string{page: "page", "layouts/a.vuego": "la", "layouts/b.vuego": "lb", "layouts/base.vuego": "lbase", "pages/a.vuego": "twin", baseTwin: "btwin"}
 		cur := page
 		curLay := layoutOf(page)
 		if c.PageSrc == "fill" && lay != "none" {
@@ -172,6 +178,9 @@ func (c *c07Case) Run(ctx *core.Ctx) {
 			}
 		}
 		trig = fmt.Sprintf("dir=%s/p=%s:%s/a=%s/b=%s/base=%s/twin=%s", c.PageDir, c.PageLay, c.PageSrc, c.ALay, c.BLay, c.Base, c.Twin)
+		if c.BaseTwin {
+			trig += "/base-twin"
+		}
 	case "chain":
 		// straight chain page -> l1 -> l2 ... -> l(Len-1); Cycle: last points back to l1
 		lname := func(i int) string {
@@ -381,7 +390,7 @@ func init() {
 		ID:        "C07",
 		Level:     "exploration",
 		CPUBudget: 20,
-		Rule: "all layout graphs over {page (root or pages/), layouts/a, layouts/b, layouts/base (absent or present), pages/a (relative twin)} where every file's layout key ranges over {none, a, b, base, self, missing} and the page's is given by front-matter or Fill, on engines built with NewFS(fs), New(WithFS(fs)) and NewFS(decoy, WithFS(fs)) (decoy differing in the presence of layouts/base.vuego); straight chains and cycles of chosen lengths incl. 98..101, cycles whose layouts use the content twice (the content doubles on every lap), the default layout itself rendered as a page, also with layouts named by numbers and booleans (YAML types the front-matter value); every subset of {page fm, a fm, b fm, Fill} defining key k; every chain of 1..3 layouts where each link uses `content` in one of 7 ways (wraps it, passes it bare, hides it behind a false / true v-if, ignores it, uses it twice, prints it escaped) x page body {one element, nothing, two elements}. " +
+		Rule: "all layout graphs over {page (root or pages/), layouts/a, layouts/b, layouts/base (absent or present), pages/a (relative twin), a base.vuego next to the page} where every file's layout key ranges over {none, a, b, base, self, missing} and the page's is given by front-matter or Fill, on engines built with NewFS(fs), New(WithFS(fs)) and NewFS(decoy, WithFS(fs)) (decoy differing in the presence of layouts/base.vuego); straight chains and cycles of chosen lengths incl. 98..101, cycles whose layouts use the content twice (the content doubles on every lap), the default layout itself rendered as a page, also with layouts named by numbers and booleans (YAML types the front-matter value); every subset of {page fm, a fm, b fm, Fill} defining key k; every chain of 1..3 layouts where each link uses `content` in one of 7 ways (wraps it, passes it bare, hides it behind a false / true v-if, ignores it, uses it twice, prints it escaped) x page body {one element, nothing, two elements}. " +
 			"oracle: reference resolver (relative-then-layouts/, default rule, limit 100) gives the nesting order with each marker once, or error with nothing written. non-trivial = all",
 		Bounds:      map[string]string{"quick": "all graphs over <=5 files; chains 1,2,3,5,98,99,100,101,150; cycles 1,2,3,7", "thorough": "same plus chains up to 300"},
 		Assumptions: []string{"a chain of exactly 100 links is accepted either way"},
@@ -405,6 +414,9 @@ func init() {
 											continue
 										}
 										emit(&c07Case{Part: "graph", PageDir: dir, PageLay: pl, PageSrc: src, ALay: al, BLay: bl, Base: base, Twin: twin})
+										if al == "none" || al == "base" {
+											emit(&c07Case{Part: "graph", PageDir: dir, PageLay: pl, PageSrc: src, ALay: al, BLay: bl, Base: base, Twin: twin, BaseTwin: true})
+										}
 										if al == "none" || bl == "none" {
 											emit(&c07Case{Part: "graph", PageDir: dir, PageLay: pl, PageSrc: src, ALay: al, BLay: bl, Base: base, Twin: twin, Ctor: "withfs"})
 											emit(&c07Case{Part: "graph", PageDir: dir, PageLay: pl, PageSrc: src, ALay: al, BLay: bl, Base: base, Twin: twin, Ctor: "replace"})
